@@ -18,7 +18,7 @@ mkdir -p $VF
 if [ "${VERIF_LIVE:-0}" = 1 ]; then
   rsync -a --exclude .build --exclude .scratch --exclude seeded --exclude evidence --exclude replays --exclude .git /verif/ $VF/
 else
-  git -C /verif archive HEAD -- . ':!seeded' ':!evidence' | tar -x -C $VF
+  git -C /verif archive ${VERIF_REV:-HEAD} -- . ':!seeded' ':!evidence' | tar -x -C $VF   # VERIF_REV: the checks as they stood at an earlier commit
 fi
 cd $VF
 go mod edit -replace github.com/brutella/hc=$WT
